@@ -419,3 +419,53 @@ def c01_write_pandas_double_quote_in_column_name():
         return False, "accepted"
     except Exception as e:  # noqa: BLE001
         return True, f"column named a\"b -> {type(e).__name__}: {str(e)[:70]} (the name is wrapped in quotes without doubling the quote)"
+
+
+def _meta_session():
+    from vf.real import real_cursor
+
+    fs, conn, cur = real_cursor(False)
+    for ddl in ("create database db2", "create schema db2.s1"):
+        cur.execute(ddl)
+    return conn, cur
+
+
+def c09_internal_objects_listed_by_show():
+    conn, cur = _meta_session()
+    rows = [(r[3], r[4], r[1]) for r in cur.execute("show objects").fetchall()]
+    internal = [r for r in rows if r[0] == "_fs_global" or r[1] == "information_schema"]
+    return bool(internal), f"SHOW OBJECTS lists fakesnow's own objects: {internal}"
+
+
+def c09_show_keys_of_another_database():
+    conn, cur = _meta_session()
+    cur.execute("create table db2.s1.tk (a int primary key)")
+    got = cur.execute("show primary keys in schema db2.s1").fetchall()
+    return got == [], f"SHOW PRIMARY KEYS IN SCHEMA db2.s1 from a session on db1 -> {got} (filter says database_name = 'DB1' AND database_name = 'DB2')"
+
+
+def c09_metadata_outlives_drop():
+    conn, cur = _meta_session()
+    cur.execute("create table t (a varchar(5)) comment = 'old'")
+    cur.execute("drop table t")
+    cur.execute("create table t (a varchar)")
+    c = cur.execute("select comment from information_schema.tables where table_name = 'T'").fetchall()
+    ln = cur.execute("select character_maximum_length from information_schema.columns where table_name = 'T'").fetchall()
+    return c != [(None,)] or ln != [(None,)] and ln != [(16777216,)], f"after DROP + re-CREATE without comment/length: comment {c}, length {ln}"
+
+
+def c09_foreign_database_side_table():
+    conn, cur = _meta_session()
+    cur.execute("create table db2.s1.tf (a varchar(7))")
+    got = cur.execute("describe table db2.s1.tf").fetchall()[0][1]
+    cur.execute("use schema db2.s1")
+    got2 = cur.execute("describe table tf").fetchall()[0][1]
+    return got != "VARCHAR(7)" or got2 != "VARCHAR(7)", f"DESCRIBE TABLE db2.s1.tf from db1 -> {got}; from db2 -> {got2} (declared VARCHAR(7))"
+
+
+def c09_show_without_scope_is_account_wide():
+    conn, cur = _meta_session()
+    cur.execute("create table db1.s1.mine (a int)")
+    cur.execute("create table db2.s1.other (a int)")
+    rows = [(r[3], r[4], r[1]) for r in cur.execute("show tables").fetchall() if r[3] != "_fs_global"]
+    return any(r[0] != "DB1" for r in rows), f"SHOW TABLES from a session on db1.s1 lists {rows} (Snowflake: the current schema)"
